@@ -165,7 +165,10 @@ class World:
 
     def new_fault(self, tag: str, kind: int = 0, allow_base: bool = False, at_call: bool = False) -> BaseException:
         """An exception object the harness injects; its type varies (user code fails with all sorts of exceptions)."""
-        types = self.FAULT_TYPES + ((Fatal,) if allow_base else ()) + ((StopIteration, StopAsyncIteration, LookupError, MemoryError, RecursionError) if at_call else ())
+        if at_call:
+            types = (Injected, TypeError, Fatal, ValueError, StopIteration, KeyError, RuntimeError, Fatal, StopAsyncIteration, LookupError, MemoryError, RecursionError)
+        else:
+            types = self.FAULT_TYPES + ((Fatal,) if allow_base else ())
         cls = types[kind % len(types)]
         exc = cls(tag)
         self.faults.append(exc)
@@ -297,7 +300,14 @@ class World:
                 rm.in_call = False
             if raised:
                 # a plain call may fail with anything, StopIteration included (inside a coroutine Python would turn that into RuntimeError)
-                raise world.new_fault(f"call r{rm.rid}[{idx}]", wspec.get("fault_kind", 0) + idx, at_call=True)
+                exc = world.new_fault(f"call r{rm.rid}[{idx}]", wspec.get("fault_kind", 0) + idx, at_call=True)
+                if not isinstance(exc, Exception):
+                    # no Exception: the spawner does not skip it, it dies of it - the request ends there, flush()/gather_and_close() raise it
+                    rm.call_fatal = idx  # type: ignore[attr-defined]
+                    rm.pm.injected.append(exc)
+                    rm.pm.fault_seen = True
+                    world.label("fault:call-raises-BaseException")
+                raise exc
             return rec
 
         if plain:
